@@ -16,6 +16,7 @@ mod fam_ids;
 mod fam_sync;
 mod fam_hexcol;
 mod fam_edit;
+mod fam_chg;
 mod gen;
 mod model;
 
@@ -47,6 +48,7 @@ fn main() {
         "sync" => fam_sync::run(&mut rng, &tier, out),
         "hexcol" => fam_hexcol::run(&mut rng, &tier, out),
         "edit" => fam_edit::run(&mut rng, &tier, out),
+        "chg" => fam_chg::run(&mut rng, &tier, out),
         _ => {
             eprintln!("unknown family {}", fam);
             std::process::exit(2);
